@@ -136,6 +136,9 @@ class Frame:
             # a *substituted default*: the read returned, yet nothing is stored
             # for (var, period) although the variable has a formula there
             rec.append(ctx.is_substituted(var, period))
+        elif ctx.sim is not None:
+            # a summed / divided read: the same question for each stored piece it read
+            rec.append(ctx.substituted_pieces(var, period, options))
         if fault is not None and fault["kind"] in ("raise_after", "raise_any"):
             if fault["kind"] == "raise_after":
                 ctx.fired.append((site, "raise_after"))
@@ -220,6 +223,21 @@ class Ctx:
             return variable.get_formula(period) is not None
         except Exception:  # noqa: BLE001
             return False
+
+    def substituted_pieces(self, var, period, options) -> list:
+        try:
+            from openfisca_core import periods
+
+            variable = self.sim.tax_benefit_system.get_variable(var)
+            p = periods.period(period)
+            unit = variable.definition_period
+            if "ADD" in [str(o).upper() for o in options]:
+                pieces = p.get_subperiods(unit)
+            else:
+                pieces = [p.this_year if str(unit) == "year" else p.first_month]
+            return [str(q) for q in pieces if self.is_substituted(var, q)]
+        except Exception:  # noqa: BLE001  (bookkeeping for a finding matcher only)
+            return []
 
     def begin(self, plan=None):
         self.site = 0
